@@ -86,6 +86,7 @@ PROP = {
     "design_ref": "DESIGN.md section 3, C14",
     "inject": {
         "src/rtps/submessage.rs": ["c14_submsg"],
+        "src/rtps/message.rs": ["c14_msg"],
         "src/structure/sequence_number.rs": ["c14_numset"],
         "src/messages/submessages/data.rs": ["c14_data"],
     },
